@@ -305,7 +305,9 @@ def rand_op(rng, st: OState, wild=False):
         return dict(op="addself")
     if k == "addrows":
         n = rng.randint(0, 4)
-        return dict(op="addrows", rows=[rand_string(rng, ALPHA[mt], n) for _ in st.rows])
+        perm = list(range(len(st.rows)))
+        rng.shuffle(perm)     # the right operand lists the same names in another order
+        return dict(op="addrows", rows=[rand_string(rng, ALPHA[mt], n) for _ in st.rows], perm=perm)
     if k == "addslices":
         return dict(op="addslices", a=rng.randint(0, L), b=rng.randint(0, L + 1), c=rng.randint(0, L), d=rng.randint(0, L + 1))
     if k in ("takepos", "takepos_neg"):
@@ -318,7 +320,10 @@ def rand_op(rng, st: OState, wild=False):
         return dict(op="takepos", cols=cols, negate=k == "takepos_neg")
     if k == "takeseqs":
         sub = rng.sample(names, rng.randint(1, len(names)))
-        return dict(op="takeseqs", names=sub, negate=rng.random() < 0.3)
+        if rng.random() < 0.4:
+            sub = sub[:1]
+        # a single name is also passed as a plain string
+        return dict(op="takeseqs", names=sub, negate=rng.random() < 0.4, as_str=len(sub) == 1 and rng.random() < 0.6)
     if k == "no_degen":
         return dict(op="no_degen", motif=rng.choice([1, 1, 2, 3]), allow_gap=rng.random() < 0.5)
     if k == "omit_gap":
@@ -358,7 +363,13 @@ def random_case(rng, flags, maxlen=12):
     for _ in range(rng.randint(1, 6)):
         for _try in range(20):
             wild = rng.random() < 0.1
-            op = rand_op(rng, st, wild)
+            earlier = [o for o in c["ops"] if o["op"] in ("sample", "takepos", "takeseqs", "addrows")]
+            if earlier and rng.random() < 0.15:
+                op = dict(rng.choice(earlier))    # the caller re-uses its arguments
+                if oracle_step(st, op) is SILENT:
+                    continue
+            else:
+                op = rand_op(rng, st, wild)
             if op["op"] in ("to_rna", "to_dna") and mt in ("protein", "text"):
                 continue   # DNA/RNA conversion of a non-nucleic alignment is outside the property
             if op["op"] == "rc" and mt in ("protein", "text") and rng.random() < 0.8:
@@ -395,8 +406,10 @@ def single_ops(L, nrows, arr, mt, tier):
     ops += [dict(op="rc"), dict(op="addself"), dict(op="to_type"), dict(op="to_rna")]
     for a, b, c, d in [(0, L // 2, L // 2, L), (0, L, 0, L), (1, L, 0, 1), (0, 1, 1, 2), (L // 2, L, 0, L // 2)]:
         ops.append(dict(op="addslices", a=a, b=b, c=c, d=d))
-    ops.append(dict(op="addrows", rows=["-A"] * nrows))
-    ops.append(dict(op="addrows", rows=["-"] * nrows))
+    distinct = ["-A", "C-", "AC"][:nrows]
+    ops.append(dict(op="addrows", rows=distinct, perm=list(range(nrows))))
+    ops.append(dict(op="addrows", rows=distinct, perm=list(reversed(range(nrows)))))
+    ops.append(dict(op="addrows", rows=["-"] * nrows, perm=list(reversed(range(nrows)))))
     cols_sets = [[i] for i in range(-L, L)] + [[i, j] for i in range(L) for j in range(L)] + [[]]
     if L >= 3:
         cols_sets.append([2, 0, 2])
@@ -418,9 +431,12 @@ def single_ops(L, nrows, arr, mt, tier):
                 ops.append(dict(op="sample", locs=locs, motif=m))
     for n in range(nrows):
         ops.append(dict(op="degaprel", name=n))
-        ops.append(dict(op="takeseqs", names=[n], negate=False))
-        if nrows > 1:
-            ops.append(dict(op="takeseqs", names=[n], negate=True))
+        for as_str in (False, True):
+            ops.append(dict(op="takeseqs", names=[n], negate=False, as_str=as_str))
+            if nrows > 1:
+                ops.append(dict(op="takeseqs", names=[n], negate=True, as_str=as_str))
+    if nrows > 1:
+        ops.append(dict(op="takeseqs", names=list(reversed(range(nrows))), negate=False))
     for w in range(1, L + 1):
         for stp in (1, 2):
             for k in range(len(range(0, L - w + 1, stp))):
@@ -484,8 +500,11 @@ def new_collection_cases(rng, n):
             k = rng.choice(["rc", "to_rna", "to_dna", "takeseqs", "degap"])
             if k == "takeseqs":
                 sub = rng.sample(names, rng.randint(1, len(names)))
-                ops.append(dict(op="takeseqs", names=sub, negate=False))
-                names = sub
+                if rng.random() < 0.5:
+                    sub = sub[:1]
+                neg = rng.random() < 0.4 and len(sub) < len(names)
+                ops.append(dict(op="takeseqs", names=sub, negate=neg, as_str=len(sub) == 1 and rng.random() < 0.6))
+                names = [n for n in names if n not in sub] if neg else sub
             else:
                 ops.append(dict(op=k))
         out.append(dict(moltype=mt, rows=rows, ops=ops, new_collection=True, block="new-collection"))
@@ -551,6 +570,10 @@ def shape_of(op, st: OState):
         if op["negate"]:
             return "negate"
         return "negative-index" if any(i < 0 for i in op["cols"]) else "plain"
+    if o == "takeseqs":
+        return ("negate" if op["negate"] else "select") + ("-str" if op.get("as_str") else "")
+    if o == "addrows":
+        return "permuted-names" if op.get("perm") and list(op["perm"]) != sorted(op["perm"]) else "same-order"
     if o in ("no_degen", "omit_gap", "filtered", "sample"):
         return f"motif{min(op['motif'], 2)}"
     return ""
@@ -621,6 +644,13 @@ def check_case(rep, c, ir, mr, stats, disagreements):
                     bad = (f"moltype {s['moltype']} after the operation, expected {exp.moltype}", "moltype")
                 elif not exp.arr and any(r[2] != exp.L for r in iobs[2]):
                     bad = ("len(row) differs from the number of columns", "rowlen")
+        if exp is not SILENT and isinstance(s, dict) and (s.get("args_modified") or s.get("repeat_differs")):
+            what = "arguments-modified" if s.get("args_modified") else "same-arguments-different-result"
+            stats["violations"] += 1
+            rep.violation(key_of(c, op, cur, what), dict(
+                case=small, op=op, observed_impl=s, witness=c.get("witness"), kind=what,
+                broken=("the operation modified an argument object of the caller" if s.get("args_modified") else
+                        "the same operation with the same argument objects on the same alignment gave a different result")))
         if bad:
             stats["violations"] += 1
             rep.violation(key_of(c, op, cur, ""), dict(
@@ -684,7 +714,7 @@ def check_new_collection(rep, c, ir, stats):
             rows, mt = [(i, r.replace("U", "T")) for i, r in rows], "dna"
         elif o == "takeseqs":
             d = dict(rows)
-            rows = [(n, d[n]) for n in op["names"]]
+            rows = [(i, r) for i, r in rows if i not in op["names"]] if op["negate"] else [(n, d[n]) for n in op["names"]]
         elif o == "degap":
             rows = [(i, "".join(ch for ch in r if ch not in "-?")) for i, r in rows]
         exp = [[i, r] for i, r in rows]
@@ -857,7 +887,7 @@ def replay(path: str) -> int:
                 bad |= not (isinstance(iobs, Exc) and iobs.code == 0)
                 continue
             if isinstance(iobs, Exc) or [r[:2] for r in iobs[2]] != [[i, r] for i, r in exp.rows] or iobs[1] != exp.L \
-                    or s.get("ro") or s.get("gapped_eq") is False:
+                    or s.get("ro") or s.get("gapped_eq") is False or s.get("args_modified") or s.get("repeat_differs"):
                 bad = True
                 break
             st = exp
